@@ -95,6 +95,15 @@ impl Block for ZeroCrossing {
             Some(Err(e)) => return Err(e),
         };
         let max_out = if let Some(ref clock) = out_clock {
+            if clock.is_empty() {
+                // No room for clock values: nothing can be emitted. Say so,
+                // instead of asking to be called again for nothing.
+                drop(out_clock);
+                return Ok(BlockRet::WaitForStream(
+                    self.out_clock.as_ref().expect("can't happen"),
+                    1,
+                ));
+            }
             std::cmp::min(o.len(), clock.len())
         } else {
             o.len()
